@@ -251,7 +251,7 @@ C(f"{F}:Parser._append_node_or_token", params={"self": "obj:Parser", "tree": f"o
 
 # ---------------------------------------------------------------------------------------------- implicit concatenation of plain literals (C01, C02)
 MIX = "any(le_isbytes(parts[j].string) != le_isbytes(parts[0].string) for j in range(1, len(parts)))"
-C(f"{F}:Parser._concat_strings_in_constant", params={"self": "obj:Parser", "parts": "seq[Tok]"},
+C(f"{F}:Parser._concat_strings_in_constant", params={"self": "obj:Parser", "parts": "seq[Tok]"}, returns="obj:ast.Constant#lit",
   requires=TKW + ["len(parts) >= 1", "all(tok_wf(parts[j]) for j in range(len(parts)))"],
   requires_assumed={"pos_le(parts[0].start, parts[len(parts) - 1].end)": "C08: tokens appear in non-decreasing position order"},
   witness={MIX: {"j": "1 + _i"}}, modifies=ERRMOD,
@@ -263,6 +263,8 @@ C(f"{F}:Parser._concat_strings_in_constant", params={"self": "obj:Parser", "part
       "isinstance(result, ast.Constant)", "node_start(result) == parts[0].start", "node_end(result) == parts[len(parts) - 1].end",
       # ... whose value is the left-to-right concatenation of the evaluated pieces (every piece, in order, exactly once) ...
       "lit_val(result.value) == lit_fold(parts, len(parts))", "lit_isbytes(result.value) == le_isbytes(parts[0].string)",
+      # (the tokenizer is only touched on the raising path)
+      *TKW,
       # ... and whose `kind` is 'u' exactly when the FIRST literal carries the u prefix (CPython's rule)
       "has_field(result, 'kind') == parts[0].string.startswith('u')", "implies(parts[0].string.startswith('u'), result.kind == 'u')",
       # C02: str and bytes pieces are never mixed in an accepted literal
@@ -390,3 +392,56 @@ C(f"{F}:Parser.proc_args", params={"self": "obj:Parser", "args": f"objseq[{PIECE
   ensures=["len(result) == runs(args, len(args))",
            _R(f"all(1 <= {AT} and {AT} <= len(args) and ({AT} == len(args) or brk(args, {AT})) and {RUNK} for k in range(len(yielded)))")],
   raises=[], pure=True, properties=["C06"])
+
+# ---------------------------------------------------------------------------------------------- path literals: the p of a string prefix (C01, C05, C14)
+C(f"{F}:Parser._strip_path_prefix", params={"token": "union[Tok|obj:PosNode]"}, returns="opt[Tok]",
+  ensures=["implies(not isinstance(token, TokenInfo), is_none(result))",
+           # a token: stripped exactly when its prefix has a p; everything but the text (type, positions, line) is kept
+           "implies(isinstance(token, TokenInfo), is_none(result) == (not has_p_prefix(token.string)))",
+           "implies(not is_none(result), result.string == strip_p(token.string) and result.type == token.type and result.start == token.start "
+           "and result.end == token.end and result.line == token.line)"],
+  raises=[], pure=True, properties=["C01", "C05", "C14"])
+
+SPART = "union[Tok|obj:ast.JoinedStr]"
+HASJ = lambda n: f"any(isinstance(old(parts)[j], ast.JoinedStr) for j in range({n}))"
+WRAP = ("((isinstance(old(parts)[0], TokenInfo) and has_p_prefix(tok_of(old(parts)[0]).string))"
+        " or (not is_none(old(self._path_token)) and any(old(parts)[j] is old(self._path_owner) for j in range(len(parts)))))")
+C(f"{F}:Parser.concatenate_strings", params={"self": "obj:Parser#strings", "parts": f"objseq[{SPART}]"}, inline=INL,
+  requires=TKW + ["len(parts) >= 1", "all(node_wf(parts[j]) for j in range(len(parts)))"],
+  requires_assumed={"pos_le(node_start(parts[0]), node_end(parts[len(parts) - 1]))": "C08: the parts appear in source order"},
+  opaque=["consolidated", "p"], opaque_loops={1: {"via": "consolidated", "over": "values", "writes": ["value", "end_lineno", "end_col_offset"]}},
+  loops={0: {"types": {"ss": "seq[Tok]", "values": "abslist[obj:StrPart]", "seen_joined": "bool"},
+             "inv": TKW + [
+                 "seen_joined == any(isinstance(parts[j], ast.JoinedStr) for j in range(_i))",
+                 "all(tok_wf(ss[j]) for j in range(len(ss)))",
+                 "implies(len(ss) > 0, _i > 0 and isinstance(parts[_i - 1], TokenInfo) and ss[len(ss) - 1] == tok_of(parts[_i - 1]))",
+                 "implies(_i > 0 and isinstance(parts[_i - 1], TokenInfo), len(ss) > 0)",
+                 "implies(_i > 0 and isinstance(parts[0], TokenInfo) and len(values) > 0, node_start(values[0]) == tok_of(parts[0]).start)",
+                 "implies(_i > 0 and isinstance(parts[0], TokenInfo) and len(values) == 0, len(ss) > 0 and ss[0].start == tok_of(parts[0]).start)",
+                 "implies(not seen_joined, len(values) == 0 and len(ss) == _i)",
+                 "implies(_i > 0 and not isinstance(parts[_i - 1], TokenInfo), seen_joined)"]}},
+  ensures=[
+      # C14: a pending p prefix (one of these parts owns it) or a p-prefixed first literal is consumed here, and nothing of it is left behind
+      f"implies({WRAP}, is_translation(result, '__xonsh__.path_literal(H0)', result.args[0]) and is_none(self._path_token) and is_none(self._path_owner))",
+      f"implies(not {WRAP}, not isinstance(result, ast.Call) and self._path_token == old(self._path_token) and self._path_owner is old(self._path_owner))",
+      # C01/C10: the literal spans from the first part's start to the last part's end, and is one Constant exactly when no part is an f-string
+      f"implies({WRAP}, node_start(result.args[0]) == node_start(old(parts)[0]) and node_end(result.args[0]) == node_end(old(parts)[len(parts) - 1]))",
+      f"implies(not {WRAP}, node_start(result) == node_start(old(parts)[0]) and node_end(result) == node_end(old(parts)[len(parts) - 1]))",
+      f"implies({WRAP}, isinstance(result.args[0], ast.Constant) == (not {HASJ('len(parts)')}))",
+      f"implies(not {WRAP}, isinstance(result, ast.Constant) == (not {HASJ('len(parts)')}))",
+      f"implies(not {WRAP} and {HASJ('len(parts)')}, isinstance(result, ast.JoinedStr))",
+  ],
+  raises=["SyntaxError"], modifies=ERRMOD + ["self._path_token", "self._path_owner"], properties=["C01", "C10", "C14"])
+
+# the f-string builder: one JoinedStr over exactly the parts matched, at the construct's positions; a p in the prefix is remembered TOGETHER with
+# the node it belongs to (concatenate_strings consumes it only for that node: C14)
+C(f"{F}:Parser._decode_fstring_parts", params={"self": "obj:Parser#strings", "parts": "abslist[obj:StrPart]"}, verify=False,
+  why_assumed="recursion over nested format specs and re.sub with a callback are outside the executor's subset; escape decoding of literal text is "
+              "covered by the C10 stand-in (escape-in-literal classes)",
+  ensures=[], raises=[], modifies=[], properties=["C10"])
+C(f"{F}:Parser.handle_fstring", params={"self": "obj:Parser#strings", "a": "Tok", "b": "abslist[obj:StrPart]", **LOCS},
+  ensures=["isinstance(result, ast.JoinedStr) and result.values is b", f"all_located(result, {LOCARGS})",
+           "implies(has_p_prefix(a.string), not is_none(self._path_token) and self._path_token.string == strip_p(a.string) and self._path_token.start == a.start "
+           "and self._path_token.end == a.end and self._path_owner is result)",
+           "implies(not has_p_prefix(a.string), self._path_token == old(self._path_token) and self._path_owner is old(self._path_owner))"],
+  raises=[], modifies=["self._path_token", "self._path_owner"], properties=["C10", "C14", "C05"])
